@@ -37,8 +37,9 @@ func verifHarnessC16() {
 	b, err := Open(o2)
 	verifAssert(err == ErrDatabaseIsUsing, "C16.second-open-not-rejected")
 	verifAssert(b == nil, "C16.second-open-returned-handle")
-	vOnlyLockFileTouched(from, "C16.rejected-open-touched-directory")
+	// (the listing comparison is checkable in a native replay too, so it comes first; the op log is engine-only)
 	verifAssert(len(verifFSList(opts.DirPath)) == nData && len(verifFSList(opts.DirPath+"-merge")) == nMerge, "C16.rejected-open-changed-directory-listing")
+	vOnlyLockFileTouched(from, "C16.rejected-open-touched-directory")
 	verifAssert(a.Put(kp.keys[0], []byte{2}) == nil, "C16.put2-err")
 	verifAssert(a.Close() == nil, "C16.close-err")
 	switch verifChoice("scenario", 4) {
